@@ -15,7 +15,7 @@ PrP2 == [price |-> 0, pt |-> <<[s |-> 1, e |-> 2, d |-> 5]>>, pv |-> <<>>]
 C_InitBinds == {[s |-> "s1", p |-> "p1", o |-> "o1", dep |-> 8, pr |-> PrP1, qos |-> 1, avail |-> TRUE],
                 [s |-> "s1", p |-> "p2", o |-> "o2", dep |-> 5, pr |-> PrP2, qos |-> 1, avail |-> TRUE]}
 C_InitBal == [a \in C_Accts |-> IF a = "c1" THEN 5 ELSE IF a = "c2" THEN 1 ELSE 0]
-C_Params == [maxTimeout |-> 2, multiple |-> 2, minDeposit |-> 4, tax |-> 1, slash |-> 5, refundDelay |-> 2]
+C_Params == [maxTimeout |-> 2, multiple |-> 2, minDeposit |-> 4, tax |-> 1, slash |-> 5, refundDelay |-> 2, lax |-> FALSE]
 C_Prs == {PrP1}
 C_ProvSeqs == {<<"p1">>, <<"p2", "p1">>}
 C_ModSvc == <<>>
